@@ -107,6 +107,13 @@ def gen_calls(tier, seed):
                 calls.append(call('make_sequence', content(kind, 2 * per + 2), symbol_count=2, error=e, boost_error=False))
                 if not quick:
                     calls.append(call('make_sequence', content(kind, 2 * per), symbol_count=2, error=e, boost_error=False))
+    # requested modes on sequences (hanzi needs it; byte on digits; kanji on kanji)
+    for k in (2, 3):
+        calls.append(call('make_sequence', gen.hanzi(r, 9 * k), symbol_count=k, mode='hanzi'))
+        calls.append(call('make_sequence', gen.hanzi(r, 40), version=1, mode='hanzi'))
+        calls.append(call('make_sequence', gen.digits(r, 30 * k), symbol_count=k, mode='byte'))
+        calls.append(call('make_sequence', gen.kanji(r, 8 * k), symbol_count=k, mode='kanji', error='M'))
+        calls.append(call('make_sequence', gen.digits(r, 50), version=1, mode='alphanumeric'))
     # explicit encodings and integers
     for enc in ('utf-8', 'iso-8859-15', 'shift_jis'):
         for k in (2, 3):
